@@ -347,6 +347,27 @@ def hostile_event(kind, loop, rnd, prepared=False):
         d = bytearray(base)
         d[-1] ^= 1
         return udp(bytes(d))
+    if kind.endswith('_x2'):
+        # the same datagram twice (a duplicate on the network, a retransmission of a request that got no answer)
+        base = hostile_event(kind[:-3], loop, rnd, prepared=prepared)
+        if isinstance(base, list):
+            return base[:-1] + [{'type': 'lazy', 'kind': kind, 'prepared': True}]
+        return [base, dict(base)] if base.get('type') == 'udp' else base
+    if kind == 'half_open_unknown_exchange':
+        # to the half-open initiator IKE_SA (no keys yet), in the clear, with exactly the SPIs it expects: a request of an exchange type that does not exist
+        half = next((x for x in w.sas('A') if x.is_initiator and x.my_crypto is None), None)
+        if half is None and not prepared:
+            return [hostile_event('acquire_silent_peer', loop, rnd), {'type': 'lazy', 'kind': kind, 'prepared': True}]
+        if half is None:
+            return udp(W.enc_header(b'\x5c' * 8, b'\0' * 8, 0, 2, 0, 38, 0x00, 0, 28), src=wd.addr_of('C'))
+        return udp(W.enc_header(half.my_spi, b'\0' * 8, 0, 2, 0, rnd.choice((38, 43, 99)), 0x00, 0, 28), src=wd.addr_of('C'))
+    if kind == 'unknown_exchange_sealed':
+        # genuinely protected by the legitimate peer, next expected Message ID, an exchange type that does not exist
+        if sa_b is None:
+            return udp(W.enc_header(known[0], known[1], 0, 2, 0, 38, 0x08, 1, 28))
+        peer_a = probes.peer_sa_of(w, sa_b)
+        mid = peer_a.peer_msg_id if peer_a else sa_b.my_msg_id
+        return udp(probes.seal(sa_b, rnd.choice((38, 43, 99)), False, mid, []))
     if kind in ('wrong_spi_sealed', 'wrong_spi_clear'):
         # addressed to an existing IKE_SA by the daemon's own SPI, but with another peer SPI; once genuinely protected by the peer's keys, once in the clear
         if sa_b is None:
@@ -398,7 +419,8 @@ def hostile_event(kind, loop, rnd, prepared=False):
 
 KINDS = ('short', 'garbage', 'unconfigured_src', 'init_existing_spi', 'unknown_exchange', 'unknown_spi', 'binary_vendor', 'auth_malformed', 'bad_checksum',
          'loop_payload', 'delete_many', 'acquire_unconfigured', 'acquire_unknown_index', 'expire_unknown_spi', 'netlink_truncated', 'netlink_unknown_type',
-         'control', 'send_gaierror', 'send_oserror', 'tick', 'wrong_spi_sealed', 'wrong_spi_clear', 'acquire_silent_peer', 'half_open_wrong_spi', 'netlink_fail_delsa', 'netlink_fail_newsa')
+         'control', 'send_gaierror', 'send_oserror', 'tick', 'wrong_spi_sealed', 'wrong_spi_clear', 'acquire_silent_peer', 'half_open_wrong_spi', 'netlink_fail_delsa', 'netlink_fail_newsa',
+         'half_open_unknown_exchange_x2', 'unknown_exchange_sealed_x2', 'unknown_exchange_x2', 'garbage_x2', 'wrong_spi_sealed_x2', 'auth_malformed_x2')
 
 
 class Lazy(dict):
